@@ -17,7 +17,7 @@ LEVEL_TEXT = ('Held on every generated graph/request: the real compiler/loader/e
               '(3-12 nodes), not exhaustive.')
 LEVEL_NOTE = ('trusts: the reference interpreter (vmon/symgraph.py); native client; two recorded sub-cases of rejection are known findings '
               '(known_findings.json); requests cut by a supplied stochastic ancestor accept either reading')
-RULE = ('cases = random DAG spec (Constant/Operation/Prior/Simulator/Summary/Discrepancy, fan-in<=4, 0-2 named edges, shared parents, partial '
+RULE = ('cases = random DAG spec (Constant/Operation/Prior/Simulator/Summary/Discrepancy, fan-in<=4 and in 8% of the graphs one node with 11-14 positional parents, 0-2 named edges, shared parents, partial '
         'observations, uses_meta, 5% tolerant simulators) x 3 requests (random output subsets incl. all / single / observed twins, with_values '
         'subsets, batch sizes 1-5; entry points ElfiModel.generate, NodeReference.generate, .observed, a reused BatchHandler over several '
         'batch indices with per-batch supplied values); distinct = hash of the case; non-trivial = some request evaluates >= 2 operations or is a '
@@ -29,7 +29,7 @@ CONFIG = {
     'thorough': {'shards': 32, 'cases': 4000, 'timeout': 3000, 'floor': 30000},
 }
 REQUIRED = ['requests', 'terms_equal', 'call_counters_checked', 'rejections_agreed', 'twin_requests', 'with_values_requests',
-            'batchhandler_batches', 'meta_nodes_evaluated', 'named_edges_evaluated']
+            'batchhandler_batches', 'meta_nodes_evaluated', 'named_edges_evaluated', 'wide_nodes_evaluated']
 
 
 def gen_cases(ctx):
@@ -153,6 +153,7 @@ def _compare(ctx, spec, wholegraph, outs, bs, given, bidx, seed, got, err, where
             where, len({id(r) for r in sg.RS_SEEN})))
     ctx.event('meta_nodes_evaluated', sum(1 for nd in spec if nd['meta'] and nd['opid'] in exp))
     ctx.event('named_edges_evaluated', sum(len(nd['kw']) for nd in spec if nd['opid'] in exp))
+    ctx.event('wide_nodes_evaluated', sum(1 for nd in spec if len(nd['pos']) >= 11 and nd['opid'] in exp))
     return len(ran) >= 2
 
 
